@@ -121,7 +121,7 @@ def install(reg):
     reg.add(FuncContract("parser.get_header_lines", params={"header": Bytes}, returns=ListOf(Bytes),
         raises=["parser.ParsingError"],
         ensures=[("lines-have-no-cr-lf", "all_elems(result, 'no_crlf')")],
-        loops={0: LoopSpec(invariants=[("r-lines-have-no-cr-lf", "all_elems(r, 'no_crlf')")], types={"r": ListOf(Bytes)})},
+        loops={0: LoopSpec(invariants=[("C01-r-lines-have-no-cr-lf", "all_elems(r, 'no_crlf')")], types={"r": ListOf(Bytes)})},
         props=["inline-on-constants"]))
     reg.add(FuncContract("parser.split_uri", params={"uri": Bytes}, returns=TupleOf(Str1, Str1, Str1, Str1, Str1),
         raises=["parser.ParsingError"], props=["inline-on-constants"],
